@@ -53,31 +53,52 @@ DistX(g, q, i, l, cx) == Max3(0, 2 * RxD(q) * (g.bbox[1] + cx * Res(g, l)) - Pix
                                  PixCX(q, i) - 2 * RxD(q) * (g.bbox[1] + (cx + 1) * Res(g, l)))
 DistY(g, q, j, l, cy) == Max3(0, 2 * RyD(q) * (g.bbox[2] + cy * Res(g, l)) - PixCY(q, j),
                                  PixCY(q, j) - 2 * RyD(q) * (g.bbox[2] + (cy + 1) * Res(g, l)))
-NearX(g, q, i, l, cx) == DistX(g, q, i, l, cx) <= 3 * RxN(q)
-NearY(g, q, j, l, cy) == DistY(g, q, j, l, cy) <= 3 * RyN(q)
+\* h2 = tolerance in half output pixels (3 = one and a half pixels)
+NearX(g, q, i, l, cx, h2) == DistX(g, q, i, l, cx) <= h2 * RxN(q)
+NearY(g, q, j, l, cy, h2) == DistY(g, q, j, l, cy) <= h2 * RyN(q)
 
 \* pixel centre inside the extent by more than k output pixels / outside by more than k output pixels
+\* (k counts HALF pixels)
 InsideBy(g, q, i, j, k) ==
-  /\ PixCX(q, i) - 2 * k * RxN(q) >= 2 * RxD(q) * g.bbox[1] /\ PixCX(q, i) + 2 * k * RxN(q) <= 2 * RxD(q) * g.bbox[3]
-  /\ PixCY(q, j) - 2 * k * RyN(q) >= 2 * RyD(q) * g.bbox[2] /\ PixCY(q, j) + 2 * k * RyN(q) <= 2 * RyD(q) * g.bbox[4]
+  /\ PixCX(q, i) - k * RxN(q) >= 2 * RxD(q) * g.bbox[1] /\ PixCX(q, i) + k * RxN(q) <= 2 * RxD(q) * g.bbox[3]
+  /\ PixCY(q, j) - k * RyN(q) >= 2 * RyD(q) * g.bbox[2] /\ PixCY(q, j) + k * RyN(q) <= 2 * RyD(q) * g.bbox[4]
 OutsideBy(g, q, i, j, k) ==
-  \/ PixCX(q, i) + 2 * k * RxN(q) < 2 * RxD(q) * g.bbox[1] \/ PixCX(q, i) - 2 * k * RxN(q) > 2 * RxD(q) * g.bbox[3]
-  \/ PixCY(q, j) + 2 * k * RyN(q) < 2 * RyD(q) * g.bbox[2] \/ PixCY(q, j) - 2 * k * RyN(q) > 2 * RyD(q) * g.bbox[4]
+  \/ PixCX(q, i) + k * RxN(q) < 2 * RxD(q) * g.bbox[1] \/ PixCX(q, i) - k * RxN(q) > 2 * RxD(q) * g.bbox[3]
+  \/ PixCY(q, j) + k * RyN(q) < 2 * RyD(q) * g.bbox[2] \/ PixCY(q, j) - k * RyN(q) > 2 * RyD(q) * g.bbox[4]
 
 \* the request rectangle lies inside the layer extent: then the code's level choice and NoTiles conditions apply
 \* to the request as given (otherwise the code first clips the request to the extent, which changes its
 \* resolution, and C01 says nothing about the level)
 Contained(ext, q) == ext[1] <= q[1] /\ q[3] <= ext[3] /\ ext[2] <= q[2] /\ q[4] <= ext[4]
 
+\* Tolerance: one and a half output pixels for requests inside the layer extent.  A request reaching beyond the
+\* extent is answered from a clipped sub-request whose size is rounded to whole pixels and whose offset is
+\* truncated (bbox_position_in_image: int()); the statement's "about one and a half" is read as two pixels there.
+Tol(ext, q) == IF Contained(ext, q) THEN 3 ELSE 4
+
+\* get_affected_level_tiles insets the request by 1/10 pixel OF THE LEVEL: a tile touched by less than that is
+\* not loaded, so when zooming in beyond the finest level the pixels within that strip of the request edge stay
+\* blank.  The strip is part of the tolerance as long as it is not wider than the tolerance itself.
+InInsetStrip(g, q, i, j) ==
+  \E l \in Levels(g) :
+    LET d == Res(g, l) \div 10 IN
+    /\ 2 * d * RxD(q) <= 3 * RxN(q) /\ 2 * d * RyD(q) <= 3 * RyN(q)          \* strip no wider than 1.5 output pixels
+    /\ \/ PixCX(q, i) <= 2 * RxD(q) * (q[1] + d) \/ PixCX(q, i) >= 2 * RxD(q) * (q[3] - d)
+       \/ PixCY(q, j) <= 2 * RyD(q) * (q[2] + d) \/ PixCY(q, j) >= 2 * RyD(q) * (q[4] - d)
+
 \* C01 for one output pixel: obs = <<level, cx, cy>>.  `ext` is the layer extent (grid bbox or source coverage)
 PixelOK(g, ext, q, i, j, obs) ==
-  LET ge == [g EXCEPT !.bbox = ext] IN
+  LET ge == [g EXCEPT !.bbox = ext]
+      h2 == Tol(ext, q)
+  IN
   IF Contained(ext, q) /\ NoTiles(g, q) THEN obs[1] = -1
   ELSE /\ obs[1] # -1 => /\ obs[1] \in Levels(g)
                          /\ Contained(ext, q) => obs[1] \in ExpectedLevels(g, q)
-                         /\ NearX(g, q, i, obs[1], obs[2]) /\ NearY(g, q, j, obs[1], obs[3])
-                         /\ ~OutsideBy(ge, q, i, j, 1)          \* nothing is shown outside the layer extent
-       /\ obs[1] = -1 => (~InsideBy(ge, q, i, j, 1) \/ (~Contained(ext, q) /\ NoTilesPossible(g, q)))
+                         /\ NearX(g, q, i, obs[1], obs[2], h2) /\ NearY(g, q, j, obs[1], obs[3], h2)
+                         /\ ~OutsideBy(ge, q, i, j, h2)          \* nothing is shown outside the layer extent
+       /\ obs[1] = -1 => \/ ~InsideBy(ge, q, i, j, h2)          \* nothing deep inside the extent is left blank ...
+                         \/ InInsetStrip(g, q, i, j)
+                         \/ (~Contained(ext, q) /\ NoTilesPossible(g, q))
 
 \* a request that is exactly one stored tile returns that tile unresampled: every pixel shows its own cell
 IsOneTile(g, q) == \E l \in Levels(g) : \E t \in InGridTiles(g, l) :
